@@ -29,6 +29,9 @@ func (e *Evaluator) Run(q *cypher.RegularQuery) (*Result, error) {
 	if q == nil || q.SingleQuery == nil {
 		return nil, unknown("empty query")
 	}
+	if e.Dev.OptionalMatchMultipliesDuplicateRows && !e.Dev.OptionalMatchJoinsOnAllBindings {
+		e.carried = referencedOutsideFirstUse(q)
+	}
 	rows := []Env{{}}
 	var err error
 	sq := q.SingleQuery
@@ -108,14 +111,42 @@ func (e *Evaluator) Run(q *cypher.RegularQuery) (*Result, error) {
 	return out, nil
 }
 
+// envKey renders the bindings of a row restricted to the carried variables (nil = all).
+func envKey(r Env, carried map[string]bool) string {
+	names := make([]string, 0, len(r))
+	for k := range r {
+		if carried == nil || carried[k] {
+			names = append(names, k)
+		}
+	}
+	sort.Strings(names)
+	vals := make([]any, 0, 2*len(names))
+	for _, k := range names {
+		vals = append(vals, k, r[k])
+	}
+	return gm.CanonRow(vals)
+}
+
 func (e *Evaluator) reading(clauses []*cypher.ReadingClause, rows []Env) ([]Env, error) {
 	for _, rc := range clauses {
 		switch {
 		case rc.Match != nil:
 			var next []Env
 			m := rc.Match
+			// deviation: the left join of OPTIONAL MATCH pairs every incoming row with the matches of all incoming
+			// rows that carry the same bindings
+			dup := map[string]int{}
+			if m.Optional && e.Dev.OptionalMatchMultipliesDuplicateRows {
+				for _, r := range rows {
+					dup[envKey(r, e.carried)]++
+				}
+			}
 			for _, r := range rows {
 				matched := false
+				times := 1
+				if n := dup[envKey(r, e.carried)]; n > 1 {
+					times = n
+				}
 				var innerErr error
 				err := e.matchPattern(m.Pattern, r, func(env Env) bool {
 					if m.Where != nil {
@@ -129,7 +160,9 @@ func (e *Evaluator) reading(clauses []*cypher.ReadingClause, rows []Env) ([]Env,
 						}
 					}
 					matched = true
-					next = append(next, env)
+					for k := 0; k < times; k++ {
+						next = append(next, env)
+					}
 					return true
 				})
 				if err == nil {
@@ -550,4 +583,22 @@ func (e *Evaluator) project(p *cypher.Projection, rows []Env) (*projected, error
 		res.envs = append(res.envs, o.env)
 	}
 	return res, nil
+}
+
+// referencedOutsideFirstUse approximates the bindings the translator carries between query frames: variables that are
+// mentioned at least twice in the query (projection pruning drops bindings that are introduced and never used again).
+func referencedOutsideFirstUse(q *cypher.RegularQuery) map[string]bool {
+	count := map[string]int{}
+	walkExpr(q, func(n cypher.Expression) {
+		if v, ok := n.(*cypher.Variable); ok {
+			count[v.Symbol]++
+		}
+	})
+	out := map[string]bool{}
+	for k, c := range count {
+		if c >= 2 {
+			out[k] = true
+		}
+	}
+	return out
 }
